@@ -29,7 +29,7 @@ The oracle below is the property itself, evaluated on what the real process did:
                        Unlock with the original key succeeds
 
     bin/check C11 [--tier quick|thorough] [--replay replays/C11/<file>.json]
-    python3 checks/c11.py --t4-only [--tier thorough]      T4 stage alone (no Coq, no T1), verbose
+    python3 checks/c11.py --t4-only [thorough]             T4 stage alone (no Coq, no T1, no evidence file), verbose
 """
 import json
 import os
@@ -625,5 +625,8 @@ if __name__ == "__main__":
         c = vcheck.Ctx("C11", tier, int(os.environ.get("VERIF_SEED", "1")))
         t4_stage(c, verbose=True)
         print(json.dumps({k: v for k, v in c.coverage["ties"]["T4-binary"].items() if k not in ("scenario_ids",)}, indent=1))
-        sys.exit(c.finish())
+        for path, text, nfi in c.violations:      # no evidence file is written by this entry point
+            print("VIOLATION property=C11 replay=%s%s\n  %s" % (path, " no-failing-input-found" if nfi else "", text))
+        print("C11 (T4 stage alone): %s" % ("FAIL" if c.violations else "ok"))
+        sys.exit(1 if c.violations else 0)
     print(__doc__)
